@@ -188,7 +188,7 @@ func openSut(h *verifx.H, maxBudget int64, step uint32, bonus, globalBudget int6
 	if err != nil {
 		panic(err)
 	}
-	bo := fsbinlog.Options{PrefixPath: dir, Magic: 3456}
+	bo := fsbinlog.Options{PrefixPath: dir + "/binlog", Magic: 3456} // files are <prefix>.NNNNNN.bin: keep them inside dir
 	if _, err := fsbinlog.CreateEmptyFsBinlog(bo); err != nil {
 		panic(err)
 	}
